@@ -47,6 +47,12 @@ def gen(ctx):
         asg = [ast.unparse(x) for x in ast.walk(fn) if isinstance(x, ast.Assign) and ast.unparse(x.targets[0]) == "check"]
         if asg != ["check = check_if_from_stdin(file_list, check, force)"]:
             raise T.Untranslatable(f"UNTRANSLATABLE: {path}: check is not derived by check_if_from_stdin: {asg}")
+    # `file state`: which requests are refused (the ready bit is for a healthy copy only; --ready excludes --unready)
+    st = T.find_func(T.parse(core.REPO / "alpenhorn/cli/file/state.py"), "_update_state")
+    refusals = [(ast.unparse(x.test), ast.unparse(x.body[0])[:60]) for x in ast.walk(st) if isinstance(x, ast.If) and x.body and isinstance(x.body[0], ast.Raise)]
+    want = [("new_state != 'healthy'", "raise click.ClickException(\"can't set ready bit: file not pr"), ("not copy or copy.has_file != 'Y'", "raise click.ClickException(\"can't set ready bit: file not pr")]
+    if refusals != want:
+        raise T.Untranslatable(f"UNTRANSLATABLE: the refusals of `file state` changed: {refusals}")
     return {"Gen_cli": T.HEADER.replace("Open Scope Z_scope.", "From Alp Require Import Model.Cli.\nOpen Scope Z_scope.") + "\n".join(d) + "\n"}
 
 
@@ -198,6 +204,26 @@ def explore(ctx):
                              {**rp, "fault_at": k})
         if i in (5, 40):
             ctx.sample({"command": cmdname, "args": args, "exit_code": code, "changed_index": changed, "statements": [(v, d) for (_, v, _, d) in log][:12]})
+    # requests the commands document / implement as errors: they must be refused (non-zero exit) and leave the index unchanged
+    must_refuse = []
+    st_spec = {"groups": ["G1"], "nodes": [{"name": "N1", "group": "G1", "stype": "A", "host": "h1", "active": True}], "acqs": ["acq1"],
+               "files": [{"acq": "acq1", "name": f"f{j}", "size": 10, "reg_days_ago": 1} for j in range(3)],
+               "copies": [{"file": 0, "node": "N1", "has": "Y", "wants": "Y"}, {"file": 1, "node": "N1", "has": "Y", "wants": "N"}], "reqs": [], "rules": [], "ireqs": []}
+    for f_ in ("acq1/f0", "acq1/f1", "acq1/f2"):
+        for st_ in ("suspect", "Corrupt", "missing", "ABSENT"):
+            must_refuse.append(("file state", [f_, "N1", f"--set={st_}", "--ready"]))
+        must_refuse.append(("file state", [f_, "N1", "--ready", "--unready"]))
+        must_refuse.append(("file state", [f_, "N1", "--set=bogus"]))
+    must_refuse.append(("file state", ["acq1/f2", "N1", "--ready"]))  # no copy at all
+    for cmdname, args in must_refuse:
+        before, after, code, out, exc, log = run_once(st_spec, base, cmdname, args, None)
+        ctx.count("must-refuse")
+        rp = {"family": "cli", "command": cmdname, "args": args, "input": None, "spec": st_spec}
+        if code == 0 and exc is None:
+            ctx.fail("C17:usage-error-accepted", f"alpenhorn {cmdname} {' '.join(args)} is a usage error (ready bit for a copy that is not healthy / contradictory or unknown options) but exited 0"
+                     + ("" if before == after else " and changed the index"), rp)
+        elif before != after:
+            ctx.fail("C17:mutated-in-rejected", f"alpenhorn {cmdname} {' '.join(args)} was rejected (exit {code}) after changing the index", rp)
     ctx.cov["cli_stats"] = stats
     # db init: fault at every statement of an empty database
     explore_db_init(ctx)
